@@ -650,7 +650,8 @@ static void scen_run(void)
         }
         /* entering a flush always starts at the first byte of a unit */
         if (!pre_cflush && o->state == CAT_STATE_FLUSH_IO_WRITE)
-                CHK(C11, STATE == CAT_STATE_FLUSH_IO_WRITE_WAIT && USTATE != CAT_UNSOLICITED_STATE_FLUSH_IO_WRITE, "command flush entered other than from its wait state / while the event FSM flushes");
+                /* (the event FSM runs first in a call: it may have finished its unit in this very call) */
+                CHK(C11, STATE == CAT_STATE_FLUSH_IO_WRITE_WAIT && o->unsolicited_fsm.state != CAT_UNSOLICITED_STATE_FLUSH_IO_WRITE, "command flush entered other than from its wait state / while the event FSM flushes");
         if (!pre_uflush && o->unsolicited_fsm.state == CAT_UNSOLICITED_STATE_FLUSH_IO_WRITE)
                 CHK(C11, USTATE == CAT_UNSOLICITED_STATE_FLUSH_IO_WRITE_WAIT && STATE != CAT_STATE_FLUSH_IO_WRITE, "event flush entered other than from its wait state / while the command FSM flushes");
         if (STATE != CAT_STATE_FLUSH_IO_WRITE_WAIT && STATE != CAT_STATE_FLUSH_IO_WRITE && o->state == CAT_STATE_FLUSH_IO_WRITE_WAIT)
@@ -739,6 +740,17 @@ static void scen_run(void)
         /* ---- C18: idle report implies no write attempt and no callback for the command FSM ------------ */
         if (busy_before == CAT_STATUS_OK && !S.rd_ok[0] && USTATE == CAT_UNSOLICITED_STATE_IDLE && SNAP.unsolicited_fsm.unsolicited_cmd_buffer_items_count == 0)
                 CHK(C18, W.writes == 0 && W.hcalls == 0 && W.vcalls == 0 && r == CAT_STATUS_OK, "cat_is_busy said idle, yet the next call (no input, no event) wrote or called back");
+        /* no line is partially received while cat_is_busy says idle: a bare LF handed to an idle parser (no event pending) is
+         * swallowed as a blank line - with a partial or aborted line pending it would start an answer */
+        if (busy_before == CAT_STATUS_OK && S.rd_ok[0] && S.rd_ch[0] == '\n' && USTATE == CAT_UNSOLICITED_STATE_IDLE &&
+            SNAP.unsolicited_fsm.unsolicited_cmd_buffer_items_count == 0) {
+                cat_status busy_after;
+                o->mutex = NULL;
+                busy_after = cat_is_busy(o);
+                o->mutex = MUTEX ? &W.mx : NULL;
+                CHK(C18, W.writes == 0 && W.hcalls == 0 && W.vcalls == 0 && busy_after == CAT_STATUS_OK,
+                    "cat_is_busy said idle, yet a line was partially received (an LF started an answer)");
+        }
         if (busy_before == CAT_STATUS_OK)
                 CHK(C18, !pre_cflush && !pre_uflush && USTATE != CAT_UNSOLICITED_STATE_FLUSH_IO_WRITE_WAIT && STATE != CAT_STATE_FLUSH_IO_WRITE_WAIT,
                     "cat_is_busy said idle while an output unit is open or about to start");
